@@ -72,7 +72,7 @@ def depth_for(data: bytes) -> int:
     return 10
 
 
-def cases(unit, rec, depths=(10,)):
+def cases(unit, rec, depths=(10,), repeat=1):
     """Yield Case objects for every state of the unit (x embeddings x depths); crashes/hangs are *not* this engine's
     business (C01 owns totality): they are counted and skipped."""
     name, tier, first, lite = unit
@@ -90,7 +90,8 @@ def cases(unit, rec, depths=(10,)):
                 core.WATCH.serial += 1
                 core.WATCH.armed = True
                 try:
-                    c.tree, c.log = trees.iscan(reg, data, depth)
+                    for _ in range(repeat):  # repeat > 1: the LAST of several identical scans is monitored (state carried between scans)
+                        c.tree, c.log = trees.iscan(reg, data, depth)
                 except core.Hang:
                     rec.note("scan-hung (reported by C01)")
                     continue
@@ -102,9 +103,9 @@ def cases(unit, rec, depths=(10,)):
                 yield c
 
 
-def run_unit(unit, rec, monitor, depths=(10,)):
+def run_unit(unit, rec, monitor, depths=(10,), repeat=1):
     last = None
-    for c in cases(unit, rec, depths):
+    for c in cases(unit, rec, depths, repeat):
         monitor(rec, c)
         last = c
     if last is not None:
